@@ -8,18 +8,23 @@ out=/verif/seeded/RESULTS.txt
 git -C /repo worktree remove --force $WT 2>/dev/null
 git -C /repo worktree add -q --detach $WT HEAD || exit 2
 cp /verif/bin/gocv $BIN
+# a private copy of the check's inputs: evidence, replay files and verdict cache of the sweep stay out of /verif
+SV=/tmp/selftest_verif
+rm -rf $SV; mkdir -p $SV
+cp -r /verif/spec /verif/known_findings.txt /verif/findings $SV/ 2>/dev/null
+[ -d /verif/.cache ] && cp -r /verif/.cache $SV/.cache
 : > $out
 for d in /verif/seeded/C*-*; do
   id=$(basename $d); prop=${id%-*}
   [ -f $d/patch.diff ] || continue
   if ! jq -e --arg p "$prop" '.checks[] | select(.property_id==$p)' /verif/MANIFEST.json >/dev/null; then echo "$id no-check" >> $out; continue; fi
   if ! git -C $WT apply $d/patch.diff 2>/dev/null; then echo "$id patch-does-not-apply" >> $out; continue; fi
-  res=$($BIN check -property $prop -tier quick -repo $WT 2>&1)
+  res=$($BIN check -property $prop -tier quick -repo $WT -verif $SV 2>&1)
   git -C $WT checkout -q -- .
   viol=$(echo "$res" | grep -c "^VIOLATION")
   first=$(echo "$res" | grep -m1 "^VIOLATION" | sed 's/.*replay=//' | sed 's|/verif/replay/[^/]*/||')
   echo "$id violations=$viol $first" >> $out
 done
 git -C /repo worktree remove --force $WT
-rm -f $BIN
+rm -rf $BIN $SV
 echo done >> $out
